@@ -365,6 +365,9 @@ func hotspotMod() *module {
 				switch rapid.IntRange(0, 3).Draw(t, "kind") {
 				case 0:
 					k = rapid.IntRange(-5, 1000).Draw(t, "ik")
+					if rapid.IntRange(0, 3).Draw(t, "wideInt") == 0 { // 64-bit identifiers are ordinary hot-parameter values
+						k = rapid.SampledFrom([]int{10000000000, -2147483649, 2147483648, 2147483647, -2147483648, 9223372036854775807, -9223372036854775808}).Draw(t, "ikWide")
+					}
 				case 1:
 					k = rapid.SampledFrom([]string{"", "x", "ximu", "true", "12", "a b", "é", "\"q\""}).Draw(t, "sk")
 				case 2:
